@@ -126,11 +126,14 @@ PROPS = {
     },
     "C02": {
         "props_file": "Props/C02.v",
-        "run_files": ["Run/CaseConn.v", "Run/CaseCookie.v", "Run/CaseConnJson.v"],
+        "run_files": ["Run/CaseConn.v", "Run/CaseCookie.v", "Run/CaseConnJson.v", "Run/CaseLst.v"],
         "imports": ["Lib.Bytes", "Codec.Desc", "Conn.Types", "Conn.Prog", "Conn.Sem1", "Run.CaseConn", "Run.CaseConnJson"],
         "case_type": "conn_case",
         "checkers": {"BASE": "check_c02_json", "C02": "check_c02_json", "C01": "check_c02_json", "C10": "check_c02_json"},
-        "harness": [{"bin": "conn", "env": {"VERIF_FAMILIES": "BASE,C02,C01,C10"}}, {"bin": "cookie", "case_type": "ckcase", "imports": ["Lib.Bytes", "Conn.Types", "Run.CaseCookie"], "checkers": {"SG": "check_cookie", "CK": "check_cookie", "JS": "check_cookie", "JP": "check_cookie"}, "shard": 100}],
+        "harness": [{"bin": "conn", "env": {"VERIF_FAMILIES": "BASE,C02,C01,C10"}},
+                    # which address the cookie is checked against and issued for when the client arrives through a balancer
+                    {"bin": "listener", "crate": "harness-app", "families": ["ADM"], "env": {"VERIF_FAMILY": "ADM"}, "case_type": "lstcase", "imports": ["Lib.Bytes", "Limiter.Limiter", "Listener.Machine", "Listener.Wire", "Run.CaseLst"], "checkers": {"ADM": "check_c15"}, "shard": 20},
+                    {"bin": "cookie", "case_type": "ckcase", "imports": ["Lib.Bytes", "Conn.Types", "Run.CaseCookie"], "checkers": {"SG": "check_cookie", "CK": "check_cookie", "JS": "check_cookie", "JP": "check_cookie"}, "shard": 100}],
         "shard": 40,
         "quick_scale": 1, "thorough_scale": 4, "search_factor": 4,
         "ties": ["cookie binary JS/JP: the real serde_json to_vec / from_slice on AuthCookie and SessionCookie vs the Gallina serde of Crypto/CookieJson.v (writer bytes equal; parser verdict and record equal whenever the model decides), and the serde tables recorded in every conn case vs the same model (Run/CaseConnJson.v)", "conn binary: real Connection::listen on a scripted transport/client/adapters in a paused runtime vs Conn.Sem1.run1 (sends, calls, outcome, virtual ms)",
